@@ -12,7 +12,7 @@ CONSTANTS
   Sequential = TRUE
   SplitLoads = FALSE
   Fused = TRUE
-  BKeys = {"k1"}
+  BKeys = {"k1", "k2"}
   PerWriter = 9
   RandomPick = FALSE
   Rich = FALSE
@@ -21,7 +21,7 @@ CONSTANTS
   MaxDeletes = 2
   MaxReads = 2
   MaxSizes = 0
-  MaxOps = 4
+  MaxOps = 3
 INVARIANTS ValuesContract SizeAccounting CountersNonNegative EntriesTyped WriteOutcome LimitAsObserved
 PROPERTIES RejectedStoresNothing TypeConflictOneKey WriteOutcomeStep LimitStep
 VIEW ViewGen
